@@ -10,14 +10,21 @@ PROP = dict(
                    "the loader sequence is a permutation: priority loaders by Order(), ordered loaders by Order(), the rest in "
                    "insertion order, for every number of loaders, and this sequence is the only arrangement meeting that description when no two "
                    "loaders of one class share an Order() (C15_sequence_determined: independent of the sorting algorithm); "
-                   "add-type options never discard a configured loader. The model (viper's merge rule, the "
+                   "add-type options never discard a configured loader. Several Initialize calls on one live Configure: every call merges ALL "
+                   "currently configured loaders in loader sequence on top of the binder's content and stores the sorted list, which does not "
+                   "disturb later calls (C15_initialize_is_merge, C15_resort_stable); after every call the last current document defining a leaf "
+                   "path wins (same side condition), every path a configured loader supplies and every path visible before is visible, a loader "
+                   "of any class added to a live Configure is loaded by the next Initialize (C15_reinit_last_wins_partial, "
+                   "C15_initialize_never_drops, C15_late_source_is_loaded); the regenerated source of configure.loadConfigure / Initialize is "
+                   "that loop on every call (C15_code_loadConfigure, C15_code_Initialize). The model (viper's merge rule, the "
                    "SortOrderedComponents partition, the option fold, the loadConfigure loop) is tied to real app.NewApp().Run(...) + "
-                   "App.Get on generated source sets every run.",
+                   "App.Get (and, for histories, further options applied to the running App / calls on a bare configure.Configure, each "
+                   "followed by Initialize and a read of every path) on generated source sets every run.",
         level_note="Modelled, not verified: spf13/viper MergeConfig/mergeMaps/insensitiviseMap/Get/AllSettings, yaml.v3, "
                    "go-kid/properties and strconv2 (ArgsLoader), sort.Slice on a class of fewer than 13 loaders (insertion sort, stable); "
                    "for larger classes only that sort.Slice returns an ascending permutation (then the result is the model's when the "
                    "Order() values differ pairwise).",
-        subs=[dict(sub="config", n_quick=1500, n_thorough=60000)],
+        subs=[dict(sub="config", n_quick=2000, n_thorough=60000)],
         thorough_seeds=1,
         rule="source sets: 1-5 loaders of kinds raw / file (temp files) / command-line arguments (--app.config=k=v given to "
              "loader.NewArgsLoader) / harness-defined Priority and Ordered raw loaders with orders in {-2..3}, added through random "
@@ -30,7 +37,16 @@ PROP = dict(
              "the default ArgsLoader) of mixed classes, priority/ordered/file loaders also added after none-ordered ones, no set option after "
              "the first option, forced overlaps (loader #i defines s<i> and s<i+1>, at the top level or below one map, most define the "
              "common key z, each with its own value) next to the random trees and markers; a priority or ordered class of 13+ members has "
-             "pairwise different orders in -n..n, smaller classes draw from {-2..3} with ties",
+             "pairwise different orders in -n..n, smaller classes draw from {-2..3} with ties; "
+             "every 5th case (tag multi-init; 400 in quick) and 17 corpus lines are HISTORIES on one live container: the option sequence of "
+             "such a source set cut into 2-4 batches by `IN` marks, the first batch given to app.NewApp().Run, every later one applied to the "
+             "running App (app.SetConfig / AddConfigLoader / SetConfigLoader / SetConfigure / Configure.AddLoaders; set-type options after "
+             "the first Initialize become add-type ones in 3 of 4 cases) and followed by App.Initialize(), one case in three on a bare "
+             "configure.NewConfigure() with a ViperBinder instead (AddLoaders / SetLoaders, no default loader); every path is read after every "
+             "Initialize and the oracles (signatures reinit-last-wins, reinit-source-lost, reinit-add-discards, reinit-phantom-key, and "
+             "config-error / config-panic) are evaluated on the loader list configured at that moment; about 40% of the histories add a "
+             "file / priority / ordered loader after an Initialize that loaded a none-ordered one (tag late-front); SetConfig with a file "
+             "path given before (a,b,a / a,SetConfigLoader,a / a,SetConfigure,a) is in the corpus",
         trusted_base=COMMON_TB + ["spf13/viper v1.19.0 merge, key lower-casing, Get and AllSettings as modelled in Ioc.Config (validated by the correspondence)",
                                   "yaml.v3 parsing of the generated documents; go-kid/properties + strconv2 for ArgsLoader values",
                                   "Go's sort.Slice is an insertion sort (stable) below 13 elements, as modelled by sortByKey; on 13 and more elements it returns an "
@@ -43,5 +59,8 @@ PROP = dict(
                      "a priority or ordered class with 13 or more loaders holds no two equal Order() values (sort.Slice stays an insertion sort up to 12; "
                      "beyond that ties are placed by pdqsort, which is not modelled and on which the property is silent); the none-ordered class "
                      "may have any size; the harness process is started without --app.config arguments, so the default ArgsLoader is empty",
-                     "null is a value: a later null hides an earlier value (viper.Get returns nil), counted as 'last wins'"],
+                     "null is a value: a later null hides an earlier value (viper.Get returns nil), counted as 'last wins'",
+                     "histories: the binder has no reset, so a key that only a source removed by a later SetLoaders / SetConfigLoader supplied stays "
+                     "visible after the next Initialize (modelled; the property speaks about configured sources, the oracle demands nothing "
+                     "about such a key); an Initialize that fails ends the history (nothing is read afterwards)"],
     )
